@@ -8,7 +8,7 @@ HASHES = ["a", "b", "c", "a.b", "ab", ""]
 RANGES = ["1", "2", "10", "b.c", "c", "b"]
 NUMKEYS = ["1", "2", "10", "1.0", "007"]
 IDXVALS = ["x", "y", "z", "x.y", "xy", ""]
-NUMS = ["1", "2", "10", "1.5", "0.1", "-3", "100", "1e2", "007", "2.50", "0", "010", "0017", "8"]
+NUMS = ["1", "2", "10", "1.5", "0.1", "-3", "100", "1e2", "007", "2.50", "0", "010", "0017", "8", "1234567890123456", "9007199254740991"]
 TABLES = ["tbl", "tb2"]
 
 SCHEMAS = [
@@ -138,6 +138,11 @@ class Gen:
             ("size(g) > :n", {}, {":n": N("1")}),
             ("attribute_type(g, :t)", {}, {":t": S(r.choice(["S", "N", "NULL", "Q"]))}),
             ("#g = :v", {"#g": "g"}, {":v": S(v)}),
+            # several name placeholders standing for different attributes
+            ("#a = :v AND #b = :w", {"#a": "g", "#b": "f"}, {":v": S(v), ":w": S(w)}),
+            ("#a = :v OR #b = :w", {"#a": "g", "#b": "f"}, {":v": S(v), ":w": S(w)}),
+            ("#a = #b", {"#a": "g", "#b": "f"}, {}), ("#a <> #b", {"#a": "g", "#b": "h"}, {}),
+            ("attribute_exists(#a) AND attribute_not_exists(#b)", {"#a": "h", "#b": "f"}, {}),
             ("m.x = :v", {}, {":v": S(v)}), ("l[0] = :v", {}, {":v": S(v)}), ("l[5] = :v", {}, {":v": S(v)}),
             ("x = :x", {}, {":x": self.value(2)}), ("x <> :x", {}, {":x": self.value(1)}),
             ("g = :v AND", {}, {":v": S(v)}), ("g = = :v", {}, {":v": S(v)}), ("(g = :v", {}, {":v": S(v)}),
@@ -147,6 +152,17 @@ class Gen:
             ("n = :s", {}, {":s": S("1")}), ("n < :s", {}, {":s": S("1")}), ("", {}, {}), (" ", {}, {}),
         ]
         return r.choice(T)
+
+    def projection(self):
+        """ProjectionExpression / ExpressionAttributeNames of a read (validated by the clients, not applied)"""
+        r = self.r
+        k = r.random()
+        if k < 0.6: return {}
+        if k < 0.7: return dict(projection="g, n")
+        if k < 0.85: return dict(projection="#p, g", names={"#p": "name"})
+        if k < 0.92: return dict(projection="g", names={"#p": "name"})          # a name the projection does not use
+        if k < 0.96: return dict(names={"#p": "name"})                            # names without any expression
+        return dict(projection="#p", names={"#p": "name", "#q": "size"})
 
     def update_expr(self):
         r = self.r
@@ -227,7 +243,9 @@ class Gen:
                 op.update(cond=e, names=nm, values=vs)
             return [op]
         if k < 0.65:
-            return [dict(op="get", key=self.key_of(t["schema"], exact=r.random() < 0.9), **base)]
+            op = dict(op="get", key=self.key_of(t["schema"], exact=r.random() < 0.9), **base)
+            op.update(self.projection())
+            return [op]
         if k < 0.85:
             index = r.choice(t["indexes"]) if t["indexes"] and r.random() < 0.5 else None
             scan = r.random() < 0.45
@@ -271,7 +289,11 @@ class Gen:
             for _ in range(r.randrange(1, 4)):
                 tt = r.choice(tabs)
                 reqs.setdefault(tt["name"], []).append(self.key_of(tt["schema"], exact=r.random() < 0.9))
-            return [dict(op="batch_get", client=client, requests=reqs)]
+            op = dict(op="batch_get", client=client, requests=reqs)
+            opts = {tn: self.projection() for tn in reqs if r.random() < 0.4}
+            opts = {tn: o for tn, o in opts.items() if o}
+            if opts: op["opts"] = opts
+            return [op]
         if k < 0.97:
             return [dict(op="describe_table", **base)]
         return [dict(op="transact", client=client)]
